@@ -344,7 +344,10 @@ def _check_all(s, when, skip_body_snapshots=()):
         if it.eul_grid_velocity_field.flags.writeable:
             raise Violation("the interaction's view of the flow velocity became writeable")
     err = float(np.max(np.abs(s["E"].astype(np.float64) - s["E_model"])))
-    tol = K_TOL * eps * s["S_E"] + tiny
+    # the spread value is force * weight_x * weight_y (* weight_z) with each weight carrying 1/dx: an intermediate product below the
+    # smallest normal number is flushed (-Ofast/numba fastmath-free but FTZ set by the compiled kernels) although the final value
+    # would be 1/dx^dim times larger - the floor scales accordingly
+    tol = K_TOL * eps * s["S_E"] + tiny * max(1.0, float(DX) ** -s["dim"]) * 16
     if not np.all(np.isfinite(s["E"])) or err > tol:
         i = np.unravel_index(int(np.argmax(np.abs(s["E"].astype(np.float64) - s["E_model"]))), s["E_model"].shape)
         raise Violation(f"{when}: shared Eulerian forcing field{list(i)} = {float(s['E'][i])!r} but the model (superposition of spread PI forces) "
